@@ -43,6 +43,9 @@ def chains(depth):
     for d in range(0, depth + 1):
         for c in itertools.product('qbo', repeat=d):
             yield ''.join(c)
+    # a wide ordered marker ("10. ", prefix width 4) alone and next to each other container
+    for c in ('w', 'wq', 'wb', 'qw', 'bw', 'ww'):
+        yield c
 
 
 def jobs(tier):
@@ -67,7 +70,7 @@ def embed(lines, chain):
             lines = ['> ' + l if l else '>' for l in lines]
             prefixes = ['> ' + p for p in prefixes]
         else:
-            m = '- ' if c == 'b' else '1. '
+            m = '- ' if c == 'b' else ('10. ' if c == 'w' else '1. ')
             lines = [(m if i == 0 else ' ' * len(m)) + l if l else l for i, l in enumerate(lines)]
             prefixes = [(m if i == 0 else ' ' * len(m)) + p for i, p in enumerate(prefixes)]
     return lines, prefixes
